@@ -5,7 +5,7 @@ package sasl
 
 /*@
 (func "sasl.scanLengthEncodedString"
-  (props C13 C05)
+  (props C13 C05 C04)
   (use be16)
   (ensures token (=> (sl_tok (content data))
       (and (= $r0 (sl_adv (content data))) (= (content $r1) (str.substr (content data) 0 $r0))
@@ -19,7 +19,7 @@ package sasl
 
 /*@
 (func "sasl.decodeLengthEncodedStrings"
-  (props C13 C05)
+  (props C13 C05 C04)
   (use be16 fields)
   (requires nonempty (>= (len parts) 1))
   (modifies rin sc_rest sc_tok sc_err sc_split (elems parts))
@@ -46,7 +46,7 @@ package sasl
 
 /*@
 (func "sasl.encodeLengthEncodedStrings"
-  (props C13 C05)
+  (props C13 C05 C04)
   (use be16 wirep zeros)
   (modifies wout wcalls)
   (ensures ok (=> (= $r0 nil)
@@ -76,7 +76,7 @@ package sasl
 
 /*@
 (func "(*sasl.Request).Decode"
-  (props C13 C05)
+  (props C13 C05 C04)
   (use be16 fields frest-unfold)
   (modifies rin sc_rest sc_tok sc_err sc_split (. r Login) (. r Password) (. r Service) (. r Realm))
   (ensures ok (=> (= $r0 nil)
@@ -126,7 +126,7 @@ package sasl
                        (= wcalls (store (old wcalls) writer (select wcalls writer))))))
 
 (func "(*sasl.Response).Encode"
-  (props C13 C05)
+  (props C13 C05 C04)
   (use be16 wirep wirep-1)
   (modifies wout wcalls)
   (ensures ok (=> (= $r0 nil)
@@ -214,7 +214,7 @@ package sasl
   (ensures error-is-decodes (= $r0 (callresult "(*sasl.Response).Decode" 0 0))))
 
 (func "(*sasl.Server).handleConnection"
-  (props C05)
+  (props C05 C04)
   (use be16 fields)
   (modifies rin sc_rest sc_tok sc_err sc_split wout wcalls closed cbcalls cblogin cbpassword cbservice cbrealm cbok cberr)
   (callsite "sasl.AuthCB" 0
@@ -229,7 +229,33 @@ package sasl
     (requires reply-fits-client-limit (<= (str.len (resptext (. $0 Result) (. $0 Message))) 256))
     (requires to-this-connection (= $1 conn))
     (requires first-reply (= (select wcalls conn) (select (old wcalls) conn))))
+  ; "accepts exactly when the store accepts": a complete request within the limits (four parts, non-empty login and password, stream
+  ; ending in EOF) is put to the callback; together with verdict-is-callbacks its approval is the reply
+  (ensures complete-request-is-put-to-the-callback (props C04 C05)
+    (=> (and (xok4 (old (select rin conn))) (= (rterm conn) 0)
+             (not (= (xpay (old (select rin conn))) "")) (not (= (xpay (xr1 (old (select rin conn)))) "")))
+        (= cbcalls (+ (old cbcalls) 1))))
   (ensures at-most-one-callback (<= cbcalls (+ (old cbcalls) 1)))
   (ensures exactly-one-reply (= (select wcalls conn) (+ (select (old wcalls) conn) 1)))
   (ensures closed-once (= (select closed conn) (+ (select (old closed) conn) 1))))
+
+; The server object: the callback given to the constructor is the one every connection is answered with, and every accepted
+; connection is handed to handleConnection of this very server (C04: the frontend's verdict is the installed callback's; C05).
+(func "sasl.NewServer"
+  (props C04 C05)
+  (noframe)
+  (ensures installs-the-callback (=> (= $r1 nil) (and (= (. $r0 cb) cb) (not (= (. $r0 ln) nil))))))
+
+(func "sasl.NewServerFromListener"
+  (props C04 C05)
+  (noframe)
+  (ensures installs-the-callback (=> (= $r1 nil) (and (= (. $r0 cb) cb) (not (= (. $r0 ln) nil))))))
+
+(func "(*sasl.Server).Run"
+  (props C04 C05)
+  (noframe)
+  (requires listening (not (= (. s ln) nil)))
+  (callsite "(*sasl.Server).handleConnection" 0 (requires on-this-server (= $0 s))
+    (requires the-accepted-connection (= $1 (callresult "net.Listener.Accept" 0 0))))
+  (loop 0 (invariant callback-untouched (and (= (. s cb) (old (. s cb))) (not (= (. s ln) nil))))))
 */
